@@ -15,6 +15,7 @@
 #ifndef IORA_SMAP1_H
 #define IORA_SMAP1_H
 typedef struct { const char *p; size_t n; bool is_g; } iora_skey;
+iora_skey G_skey_last; bool G_skey_made;      /* ghost: the key object made last (so a contract can speak about a key that was NOT applied) */
 /* std::string key(ptr, n) */
 static inline iora_skey iora_skey_make(const char *p, size_t n)
 {
@@ -25,6 +26,7 @@ static inline iora_skey iora_skey_make(const char *p, size_t n)
 #else
   k.is_g = false;
 #endif
+  G_skey_last = k; G_skey_made = true;
   return k;
 }
 static inline bool iora_skey_empty(const iora_skey *k) { return k->n == 0; }
